@@ -11,6 +11,7 @@ adjointness of `erode_sub(·,h)`/`dilate_add(·,h)` for the heights of the eleme
 `C02_scalars_unsigned` and `C02_scalars_bool` establish for every unsigned dtype and for bool.
 -/
 import Mahotas.Proofs.C02Laws
+import Mahotas.Proofs.StarCheck
 open Mahotas Mahotas.C01 Mahotas.C02
 
 /-- **the scalar interface holds for every unsigned dtype** (generic in the range `[0, hi]`,
@@ -151,18 +152,28 @@ theorem C02_tophats (dt : DT) (sup : List (List Int × Int)) (sc : Scalars dt su
      tophatClose_exact dt sc.lo0 f sup
        (le_close dt sup sc f hs hlen hf (noSat_of_hiClear dt sup sc f (dilateImg dt f sup) rfl hs hlen hcd)) i hi⟩
 
-/-- **C02-T4 (boolean duality), partial**: `dilate(f) = ¬ erode(¬ f)` at every pixel of a boolean image,
-for every element that is scatter/gather symmetric on the image shape (`ScatterGatherSym`: pixel `i`
-reaches `j` through some clamped offset iff `j` reaches `i`). What is missing: the proof that
-centred crosses, boxes and disks (symmetric, coordinate-wise star-shaped) satisfy that hypothesis
-for every shape — F12 of the design, proved only in the spike's `Fin d → ℤ` coordinates; here it is
-checked by `decide` on a concrete shape (see the example below) and validated by the correspondence check. -/
-theorem C02_bool_duality_partial (F : Img Int) (sup : List (List Int × Int)) (hsup : ∀ kh ∈ sup, kh.2 ≠ 0)
+/-- **C02-T4 (boolean duality)**: `dilate(f) = ¬ erode(¬ f)` at every pixel of a boolean image of any
+rank and shape, for every element whose offsets are symmetric and coordinate-wise star-shaped
+(`SymStar`: with a member every offset between 0 and it, and its negation, are members — centred
+crosses, boxes and disks; `C02_symstar_check` decides it for a concrete element). Uses F12 (scatter with
+clamp = gather with clamp for such elements), proved here in the model's own coordinates. -/
+theorem C02_bool_duality (F : Img Int) (sup : List (List Int × Int)) (hsup : ∀ kh ∈ sup, kh.2 ≠ 0)
     (hs : ∀ d ∈ F.shape, 0 < d) (hlen : ∀ kh ∈ sup, kh.1.length = F.shape.length)
-    (hF : RangeImg dtBool F) (hsg : ScatterGatherSym F.shape sup) :
+    (hF : RangeImg dtBool F) (hss : SymStar sup) :
     ∀ j, j < shapeSize F.shape →
       (dilateImg dtBool F sup).data.getD j 0 = 1 - (erodeImg dtBool (notImg F) sup).data.getD j 0 :=
-  bool_duality F sup hsup hs hlen hF hsg
+  bool_duality F sup hsup hs hlen hF (scatterGatherSym_of_symStar F.shape sup hs hlen hss)
+
+/-- **F12 in the model's coordinates**: for a symmetric star-shaped element, pixel `i` reaches pixel `j`
+through some clamped offset iff `j` reaches `i` — on every image shape. -/
+theorem C02_scatter_gather_symmetric (shape : List Nat) (sup : List (List Int × Int))
+    (hs : ∀ d ∈ shape, 0 < d) (hlen : ∀ kh ∈ sup, kh.1.length = shape.length) (hss : SymStar sup) :
+    ScatterGatherSym shape sup :=
+  scatterGatherSym_of_symStar shape sup hs hlen hss
+
+/-- the Boolean check `symStarB` (enumerate every offset between 0 and each member) is sound for `SymStar` -/
+theorem C02_symstar_check (sup : List (List Int × Int)) (h : symStarB sup = true) : SymStar sup :=
+  symStar_of_check sup h
 
 /-! non-vacuity: a 2×3 uint8 image clear of the limits with the default cross (entries 1, so erosion
     subtracts and dilation adds 1) meets the hypotheses; opening and closing act non-trivially. -/
@@ -177,8 +188,10 @@ example :
     (cdilateModel dt f { shape := [2, 3], data := #[6, 6, 6, 6, 6, 6] } sup 2).data.toList = [6, 6, 6, 6, 6, 6] := by
   decide +kernel
 
-/-! the 1-D box `[1,1,1]` is scatter/gather symmetric on a length-3 axis -/
-example : ∀ i ∈ List.range 3, ∀ j ∈ List.range 3,
-    (((support [3] #[1, 1, 1] true).any fun kh => tgt [3] i kh.1 == j) =
-     ((support [3] #[1, 1, 1] true).any fun kh => tgt [3] j kh.1 == i)) := by
-  decide
+/-! the elements of the property's quantifier are symmetric and star-shaped: the 2-D cross, the 3×3 and
+    5×3 boxes, the 3-D cross, the disk of radius 2 (the 5×5 array produced by `disk(2)`) -/
+example : symStarB (support [3, 3] #[0, 1, 0, 1, 1, 1, 0, 1, 0] true) = true := by decide
+example : symStarB (support [3, 3] #[1, 1, 1, 1, 1, 1, 1, 1, 1] true) = true := by decide
+example : symStarB (support [5, 3] (Array.replicate 15 1) false) = true := by decide
+example : symStarB (support [3, 3, 3] (crossElem 3 1) true) = true := by decide
+example : symStarB (support [5, 5] (diskElem 2 2) true) = true := by decide
